@@ -743,6 +743,23 @@ func (g *Gen) localsAt(b *ssa.BasicBlock, atStart bool, st State) map[string]T {
 	for k, v := range g.paramEnv {
 		vars[k] = v
 	}
+	// "rangeindex": the hidden index of a range loop over a slice, array or string whose header is
+	// this block (or the innermost one dominating it): the index of the element processed last,
+	// -1 before the first
+	for blk := b; blk != nil; blk = blk.Idom() {
+		found := false
+		for _, in := range blk.Instrs {
+			if ph, ok := in.(*ssa.Phi); ok && ph.Comment == "rangeindex" {
+				if t, ok := g.vals[ph]; ok {
+					vars["rangeindex"] = t
+					found = true
+				}
+			}
+		}
+		if found {
+			break
+		}
+	}
 	// variables that live in a cell (address taken / captured): their current content
 	cellVars := map[string]bool{}
 	for _, blk := range g.fn.Blocks {
